@@ -291,28 +291,23 @@ class DebugCore(Contract):
             return out
         G = solver._solver
         # ground truth, independent of how the solver remembers it: the owner of a tracked formula is the
-        # top-level constraint (not used inside a combination) holding it, else it is a basic rule
-        basic = []
-        for t in pb.tasks.values():
-            basic += list(t.get_z3_assertions()) + [t._end <= pb._horizon]
-        for w in pb.workers.values():
-            basic += list(w.get_z3_assertions())
-            bi = w.get_busy_intervals()
-            for (s1, e1), (s2, e2) in itertools.combinations(bi, 2):
-                basic.append(z3.Or(s2 >= e1, s1 >= e2))
-        basic += list(pb.get_z3_assertions())
-        basic_ids = {f.get_id() for f in basic}
+        # top-level constraint (not used inside a combination) holding it; a formula held by no constraint at all is a
+        # basic rule (task, resource, buffer, horizon rules); a formula held only by a constraint that is used inside a
+        # combination must not be on the stack on its own
         top = [c for c in pb.constraints.values() if not c._created_from_assertion]
+        inner = [c for c in pb.constraints.values() if c._created_from_assertion]
         owner = {}
+        basic_ids = set()
         ok, why = True, ""
         for f, name in G.tracked():
             cands = [c for c in top if f.get_id() in {x.get_id() for x in assertions_of(c)}]
             if cands:
                 owner[name] = cands[0]
-            elif f.get_id() in basic_ids:
-                owner[name] = None
+            elif any(f.get_id() in {x.get_id() for x in assertions_of(c)} for c in inner):
+                ok, why = False, f"tracked formula {f} belongs to a constraint that is only an operand of a combination"
             else:
-                ok, why = False, f"tracked formula {f} is neither a top-level constraint's nor a basic rule"
+                owner[name] = None
+                basic_ids.add(f.get_id())
         out.append(Clause("invariant[every tracked formula belongs to a top-level constraint or is a basic rule]", z3.BoolVal(ok), props=("C19",), kind="invariant", note=why, bounded=self.bounded))
         if G.last == z3.unsat and ctx["res"] is False:
             core = getattr(G, "core", [])
